@@ -201,13 +201,12 @@ def handle : List String → String
     match parseBool m, parseSegs segs with
     | some m, some l =>
       let s := feedAll V3.feed (V3.init m) l
-      match s with
-      | .failed _ .badVersion => "E:BadVersion"
-      | .failed _ .badKind => "E:BadKind"
-      | _ =>
-        match Resp.run {} s.events with
-        | .error e => showResp (.error e)
-        | .ok r => showResp (.ok r) ++ " " ++ showBool s.finished ++ " " ++ toHex s.unused
+      -- handler callbacks happen before a later framing error is detected
+      match Resp.run {} s.events, s with
+      | .error e, _ => showResp (.error e)
+      | .ok _, .failed _ .badVersion => "E:BadVersion"
+      | .ok _, .failed _ .badKind => "E:BadKind"
+      | .ok r, _ => showResp (.ok r) ++ " " ++ showBool s.finished ++ " " ++ toHex s.unused
     | _, _ => "bad-op"
   | ["req", w, segs] =>
     match parseBool w, parseSegs segs with
